@@ -117,7 +117,7 @@ def run(ctx):
     ctx.suites_run += ["S-loop", oracles.SUITE]
     rng = ctx.rng
     ctx.rule("strict: all optimizers × continuous tasks (7 bound regimes, dimension 1..8, 4 single + 2 weighted multi objectives, min/max) × configs (max_cycles 1,2,3,5; population 1×..3× (+0/+1/+3); one algorithm parameter moved inside its validator range in 30% of the runs; "
-             "early stopping / fitness_error variants, early-stopping fields left None; one objective given as scalar + one weight / as a one-element list with and without a weight) × serial/thread(/process); baseline: ≥ 3 integer-coded tasks per working (optimizer, encoding) pair; malformed: every combination of "
+             "early stopping / fitness_error variants, early-stopping fields left None; one objective given as scalar + one weight / as a one-element list with and without a weight; instances re-used across solver modes) × serial/thread(/process); baseline: ≥ 3 integer-coded tasks per working (optimizer, encoding) pair; malformed: every combination of "
              "{config present/absent} × workers {None,-3,0,1,4} × mode {None, 3 valid, 3 invalid} + invalid definitions + weight-count mismatches; a case = one run / call; non-trivial = all; distinct by job")
     invalid_calls(ctx)
     names = optimizers.names()
@@ -147,6 +147,13 @@ def run(ctx):
         for objective, weights in (("sphere", [rng.choice([0.5, 1.0, 2.0])]), ("multi1", None), ("multi1", [rng.choice([0.5, 1.0, 2.0])])):
             js.append({"name": name, "kind": "cont-sym", "specs": trace.task_specs(rng, "cont-sym", 3), "objective": objective, "weights": weights, "minmax": rng.choice(["min", "max"]),
                        "seed": rng.randrange(1, 10 ** 6), "cfg": {"max_cycles": 2, "fitness_error": None}, "mode": "serial", "trace": False, "stream": "strict", "one_objective": True})
+    # one instance used in one solver mode and then in another (what HyperTuner.resolve / Multitask do with a user's optimizer object): every
+    # ordered pair of modes, a few classes each
+    for name in rng.sample(names, 4 if not ctx.thorough else 20):
+        for first, second in (("thread", "process"), ("process", "thread"), ("thread", "serial"), ("process", "serial"), ("serial", "process"), ("serial", "thread")):
+            js.append({"name": name, "kind": "cont-sym", "specs": trace.task_specs(rng, "cont-sym", 2), "objective": "sphere", "minmax": "min", "seed": rng.randrange(1, 10 ** 6),
+                       "cfg": {"max_cycles": 2, "fitness_error": None}, "mode": second, "workers": 2, "warmup": {"mode": first, "seed": rng.randrange(1, 10 ** 6)},
+                       "trace": False, "stream": "strict"})
     # early-stopping records with a field left None: accepted by the validator (`int | None`, `float | None`), hence "valid configurations"
     for name in rng.sample(names, 6 if not ctx.thorough else 30):
         for es in ({"patience": None}, {"min_delta": None}, {"patience": None, "min_delta": None}):
